@@ -76,11 +76,13 @@ ASSUMPTIONS = [
     "binds use loopback addresses, ephemeral or probed-free ports, temp-dir unix sockets and dup()ed descriptors only; "
     "[::] / 0.0.0.0 are not bound; the aioquic alt-svc branch of response_headers is not reachable (aioquic not installed)",
     "two flags documented for one setting, or one non-repeatable flag given twice: either given value is accepted",
+    "a bind that fails with EADDRINUSE is retried with fresh ports; if a control experiment with plain sockets shows that "
+    "port 8000 (the documented default of bare hosts) is occupied on this machine the case is skipped, not judged",
 ]
 BOUNDS_DOC = {
-    "quick": "all keys x 2 values x 12 loaders; all 45 spellings alone x 3 value sets; 36x36 ordered canonical pairs; "
+    "quick": "all 54 keys x 2 values x 12 loaders + ordered key pairs x 2 loaders; all 44 spellings alone x 3 value sets; 36x36 ordered canonical pairs; "
              "toml file key x flag; bind shapes alone + pairs; 2 years + 1 day of minutes of clock lattice",
-    "thorough": "as quick plus all 45x45 ordered spelling pairs x 3 value sets x 2 argv styles, 3 config-file formats, "
+    "thorough": "as quick plus key pairs x 7 loaders, all 36^3 canonical triples, all 44x44 ordered spelling pairs x 3 value sets x 2 argv styles, 3 config-file formats, "
                 "clock lattice over every day 1970-2100",
 }
 BUDGET = {"quick": 90, "thorough": 1100}
@@ -270,7 +272,6 @@ def do_load(case: tuple) -> ExecResult:
     value = values[vi]
     want = ref.normalise_setting(kind, value)
     settings = {key: value}
-    note = "ok"
     cfg = None
     assigned = {key: ([want], "loader-effect", loader)}
     with config_files(settings) as p:
@@ -293,7 +294,7 @@ def do_load(case: tuple) -> ExecResult:
                 cfg = Config.from_pyfile(p["pyfile"])
             elif loader == "toml":
                 if p["toml"] is None or kind not in ref.TOML_KINDS:
-                    note = "n/a"
+                    pass  # not expressible in TOML
                 else:
                     cfg = Config.from_toml(p["toml"])
             else:
@@ -303,17 +304,13 @@ def do_load(case: tuple) -> ExecResult:
                         assigned[key] = ([want], "cli-flag-effect", f"{argv[0]}:wrong-value")
                 else:
                     assigned[key] = ([want], "file-value-survives", loader[len("main-"):])
-                if loader == "cli":
-                    pass
-                elif loader == "main-toml":
-                    argv = ["-c", p["toml"]] if p["toml"] is not None and kind in ref.TOML_KINDS else None
-                elif loader == "main-pyfile":
-                    argv = ["--config", "file:" + p["pyfile"]]
-                else:
-                    argv = ["-c", "python:" + p["module"]]
-                if argv is None or key == "application_path":
-                    note = "n/a"
-                else:
+                    if loader == "main-toml":
+                        argv = ["-c", p["toml"]] if p["toml"] is not None and kind in ref.TOML_KINDS else None
+                    elif loader == "main-pyfile":
+                        argv = ["--config", "file:" + p["pyfile"]]
+                    else:
+                        argv = ["-c", "python:" + p["module"]]
+                if argv is not None and key != "application_path":
                     cfg, err = run_main(argv + [APP])
                     assigned["application_path"] = ([APP], "cli-flag-effect", "application")
                     if err is not None:
@@ -568,7 +565,14 @@ def materialise(shape: str, type_: int, tmp: str, n: int, keep: list) -> Tuple[s
 def do_bind(case: tuple) -> ExecResult:
     # ("bind", ssl, which, (shape, ...), workers)
     _, ssl_on, which, shapes, workers = case
-    viol, obs, made, exc = _bind_once(ssl_on, which, shapes, workers)
+    for _attempt in range(5):
+        viol, obs, made, exc = _bind_once(ssl_on, which, shapes, workers)
+        if exc is None or exc[0] != "OSError" or "Address already in use" not in exc[1]:
+            break
+        # a probed-free port was taken by another process in between: try again with fresh ports
+    if exc is not None and exc[0] == "OSError" and "Address already in use" in exc[1] and _port_8000_busy(which):
+        # bare hosts mean port 8000; somebody else on this machine is listening there: not hypercorn's doing
+        return _result(case, [], ("environment", "port 8000 busy"), False)
     if exc is not None:
         mismatch = _mismatch(which, shapes)
         if not mismatch:
@@ -582,6 +586,21 @@ def do_bind(case: tuple) -> ExecResult:
             who = "+".join(culprits) if culprits else "list:" + "+".join(shapes)
             viol.append(V("bind-failed", f"{who}:{exc[0]}", f"{which} {shapes}: {exc[1]}"[:300]))
     return _result(case, viol, tuple(obs), made, {"case": repr(case), "sockets": stable_repr(obs)[:300]})
+
+
+def _port_8000_busy(which: str) -> bool:
+    """Control experiment with plain sockets: can *we* bind port 8000 on a loopback address (SO_REUSEADDR set)?"""
+    type_ = socket.SOCK_DGRAM if which == "quic_bind" else socket.SOCK_STREAM
+    for family, host in ((socket.AF_INET, "127.0.0.1"), (socket.AF_INET6, "::1")):
+        s = socket.socket(family, type_)
+        try:
+            s.setsockopt(socket.SOL_SOCKET, socket.SO_REUSEADDR, 1)
+            s.bind((host, 8000))
+        except OSError:
+            return True
+        finally:
+            s.close()
+    return False
 
 
 def _mismatch(which: str, shapes: tuple) -> list:
